@@ -11,9 +11,9 @@
    full statement is the Prop Proofs.WriterInvProofs.smiles_invariant_discrete_goal and is NOT proved.  The stereo
    refinement (`_chiral_morgan`) is not covered by theorems: search in harness/checks/C01.py. *)
 From Coq Require Import ZArith List Bool Permutation Sorting.Sorted String.
-From Gen Require Import MorganConsts.
+From Gen Require Import MorganConsts MorganBody SmilesKeys AtomStereoMark.
 From Model Require Import PyBase PyHash Graph Morgan Stereo StereoRegistry Writer ChiralMorgan.
-From Proofs Require Import MorganProofs WriterInvProofs WriterStereoExt BfsExt BfsExt2 TraverseOrderExt InsertionOrderExt InsertionOrderExt2 ChiralMorganProofs StereoProofs StereoOrderExt StereoOrderExt2 RegistryRemapExt EnvLaws CtMapOrderExt AllStereoExt SameStereo EqHashExt ChiralDiscreteExt ChiralOrderExt MorganChargeRefuted ChiralReinsertExt ChiralReinsertBool MorganConstsProofs MolPermDecide ChiralReinsertEq.
+From Proofs Require Import MorganProofs WriterInvProofs WriterStereoExt BfsExt BfsExt2 TraverseOrderExt InsertionOrderExt InsertionOrderExt2 ChiralMorganProofs StereoProofs StereoOrderExt StereoOrderExt2 RegistryRemapExt EnvLaws CtMapOrderExt AllStereoExt SameStereo EqHashExt ChiralDiscreteExt ChiralOrderExt MorganChargeRefuted ChiralReinsertExt ChiralReinsertBool MorganConstsProofs MolPermDecide ChiralReinsertEq MorganBodyTie SmilesKeysTie DiffFuelExt DiffFuelExt2 AtomStereoMarkTie.
 Import ListNotations.
 Open Scope Z_scope.
 
@@ -1090,3 +1090,160 @@ Theorem C01_canonical_eq_hash_two_descriptions :
     mol_eq (canon_of o) d' d = true /\ mol_eq (canon_of o) d d' = true /\ mol_hash (canon_of o) str_hash d' = mol_hash (canon_of o) str_hash d.
 Proof. exact canonical_eq_hash_two_descriptions. Qed.
 Print Assumptions C01_canonical_eq_hash_two_descriptions.
+
+(* ---- TIE BY TRANSLATION (round 4): Gen.MorganBody is regenerated from /repo's SOURCE on every run by tools/gen_morganbody.py, which
+   translates the body of chython/algorithms/morgan.py::_morgan statement by statement (the assignments before the loop, the dict
+   comprehension of one refinement round with its KeyError-raising lookups, the counters, the if / elif / elif chain with its two
+   `break`s, the ranking comprehension over enumerate(groupby(sorted(...)))), Morgan.atoms_order (if / elif / return chain),
+   Morgan.int_adjacency, Element.__hash__ and Bond.__hash__.  The translated functions ARE the hand-written model, for every hash
+   function and every input (malformed dicts included): a behaviour-changing edit of these sources breaks these theorems. *)
+Theorem C01_morgan_is_translated_source :
+  (forall (h : list Z -> Z) (atoms : labels) (bonds : iadj), g_morgan h atoms bonds = morgan h atoms bonds) /\
+  (forall (h : list Z -> Z) (atoms : labels) (bonds : iadj), g_morgan_labels h atoms bonds = morgan_labels h atoms bonds) /\
+  (forall atoms : labels, g_rank atoms = dense_rank atoms).
+Proof. exact morgan_is_translated_source. Qed.
+Print Assumptions C01_morgan_is_translated_source.
+
+Theorem C01_atoms_order_is_translated_source :
+  (forall (h : list Z -> Z) (ring : Z -> bool) (g : mol), g_atoms_order h ring g = atoms_order h ring g) /\
+  (forall g : mol, g_int_adjacency g = int_adjacency g) /\
+  (forall (h : list Z -> Z) (a : atom) (r : bool), g_atom_hash h a r = atom_invariant h a r) /\
+  (forall b : bond, g_bond_hash b = bond_invariant b).
+Proof. exact atoms_order_is_translated_source. Qed.
+Print Assumptions C01_atoms_order_is_translated_source.
+
+(* the property itself, stated about the TRANSLATED source: for every hash function, the rank the translated atoms_order gives to an
+   atom does not depend on the atom numbers nor on the insertion order of atoms, adjacency rows and neighbours *)
+Theorem C01_translated_atoms_order_structure_only :
+  forall (h : list Z -> Z) (ring ring' : Z -> bool) (g : mol) (s : Z -> Z) (g' : mol),
+  wf_mol g = true -> inj_on (ids g) s -> (forall n, In n (ids g) -> ring' (s n) = ring n) -> mol_perm (ren_mol s g) g' ->
+  forall n, In n (ids g) -> rank_of (g_atoms_order h ring' g') (s n) = rank_of (g_atoms_order h ring g) n.
+Proof. exact translated_atoms_order_structure_only. Qed.
+Print Assumptions C01_translated_atoms_order_structure_only.
+
+Theorem C01_translated_morgan_equivariant_dicts : forall (h : list Z -> Z) (s : Z -> Z) (D : list Z), inj_on D s ->
+  forall atoms adj, incl (keys atoms) D -> adj_in D adj ->
+  g_morgan h (ren_labels s atoms) (ren_adj s adj) = ren_res s (g_morgan h atoms adj).
+Proof. exact translated_morgan_equivariant_dicts. Qed.
+Print Assumptions C01_translated_morgan_equivariant_dicts.
+
+(* non-vacuity: the translated function computes (CPython tuple hash; a path of three equal atoms: the ends share a rank), and raises
+   KeyError on an adjacency that mentions a missing atom *)
+Theorem C01_translated_morgan_example :
+  g_morgan hash_ztuple [(1, 5); (2, 5)] [(1, [(9, 1)]); (2, [])] = Err KeyError /\
+  exists r, g_morgan hash_ztuple [(1, 5); (2, 5); (3, 5)] [(1, [(2, 1)]); (2, [(1, 1); (3, 1)]); (3, [(2, 1)])] = Ok r /\
+            zget r 1 = zget r 3 /\ zget r 1 <> zget r 2.
+Proof. exact translated_morgan_example. Qed.
+Print Assumptions C01_translated_morgan_example.
+
+(* ---- TIE BY TRANSLATION of the writer's ordering decisions: Gen.SmilesKeys is regenerated from the SOURCE of Smiles._smiles on every
+   run by tools/gen_smileskeys.py (the `groups` table and its loop, mod_weights_start, mod_weights in both the random and the canonical
+   mode, the key of `min(atoms_set, ...)`, the keys of the two `sorted(...)` calls of the DFS; the translator refuses any further use of
+   the weights inside _smiles).  The sort keys of the writer model that every writer theorem above is about (key_start: start atom,
+   key_child_at: children of a DFS node) are the translated keys followed by the tie-break priority (the model's stand-in for CPython
+   set iteration order), and the start atom's neighbours are sorted by the same key as every other node's children (the line fixed by
+   2e3e6bb).  An edit of one of these expressions breaks this theorem (or the translator fails closed). *)
+Theorem C01_writer_sort_keys_are_translated_source :
+  (forall (w : Z -> Z) (all : list Z) (x : Z), dd_get (k_groups w all) (w x) = group_of w all x) /\
+  (forall (w tb : Z -> Z) (o : opts) (all : list Z) (seen : list (Z * Z)) (x : Z),
+     key_start w tb o all x = (k_start_key w (o_random o) (k_groups w all) seen x ++ [tb x])%list) /\
+  (forall (g : mol) (w tb : Z -> Z) (o : opts) (all : list Z) (seen : list (Z * Z)) (p x : Z),
+     key_child_at g w tb o all seen p x = (k_sort_child g w (o_random o) (k_groups w all) seen p x ++ [tb x])%list) /\
+  (forall (g : mol) (w tb : Z -> Z) (o : opts) (all : list Z) (seen : list (Z * Z)) (p x : Z),
+     key_child_at g w tb o all seen p x = (k_sort_start g w (o_random o) (k_groups w all) seen p x ++ [tb x])%list).
+Proof. exact writer_sort_keys_are_translated_source. Qed.
+Print Assumptions C01_writer_sort_keys_are_translated_source.
+
+(* non-vacuity: a start atom with a double and a single bond to two atoms of equal weight (cyclobutadiene): the translated key tells the
+   two neighbours apart by the bond order, after the weight part *)
+Theorem C01_writer_sort_keys_example :
+  let g := mkMol [(1, mkAtom 6 None 0 false (Some 1) None); (2, mkAtom 6 None 0 false (Some 1) None); (4, mkAtom 6 None 0 false (Some 1) None)]
+                 [(1, [(2, mkBond 2 None); (4, mkBond 1 None)]); (2, [(1, mkBond 2 None)]); (4, [(1, mkBond 1 None)])] in
+  let w := fun n : Z => if n =? 1 then 1 else 2 in
+  let gr := k_groups w [1; 2; 4] in
+  k_start_key w false gr [] 1 = [-1; 1] /\
+  k_sort_start g w false gr [(1, 0); (2, 1); (4, 1)] 1 2 = [-2; 2; 1; 2] /\
+  k_sort_start g w false gr [(1, 0); (2, 1); (4, 1)] 1 4 = [-2; 2; 1; 1].
+Proof. exact sort_keys_example. Qed.
+Print Assumptions C01_writer_sort_keys_example.
+
+(* ---- FROM OBSERVATION TO THEOREM (round 4): the fuel of the model of MoleculeStereo.__differentiation is sufficient.  A pass whose
+   morgan_update is non-empty has discarded a whole non-empty group from one of the three stereo sets (groups = classes of equal
+   label, pairwise disjoint), so mu = |atoms_stereo| + |cis_trans_stereo| + |allenes_stereo| strictly decreases whenever the
+   `while True` loop goes round again.  Hence: the result is the same for every fuel above mu; the out-of-fuel value is never
+   returned (no other part of the model produces OtherError); the sets returned are not larger, so in the model of _chiral_morgan
+   every call of __differentiation has enough fuel with diff_fuel.  (The OUTER loop of _chiral_morgan - flip-half - keeps its
+   observed fuel: its termination is not a measure argument on these sets.) *)
+Theorem C01_differentiation_fuel_sufficient :
+  forall (h : list Z -> Z) (g : mol) (tabs : cmtabs) (fuel1 fuel2 : nat) (morgan : labels) (sa : list Z) (sct : list (Z * Z)) (sal : list Z)
+         (trace : list labels),
+  (mu sa sct sal < fuel1)%nat -> (mu sa sct sal < fuel2)%nat ->
+  differentiation h g tabs fuel1 morgan sa sct sal trace = differentiation h g tabs fuel2 morgan sa sct sal trace.
+Proof. exact differentiation_fuel_irrelevant. Qed.
+Print Assumptions C01_differentiation_fuel_sufficient.
+
+Theorem C01_differentiation_never_out_of_fuel :
+  forall (h : list Z -> Z) (g : mol) (tabs : cmtabs) (fuel : nat) (morgan : labels) (sa : list Z) (sct : list (Z * Z)) (sal : list Z)
+         (trace : list labels),
+  (mu sa sct sal < fuel)%nat -> differentiation h g tabs fuel morgan sa sct sal trace <> Err OtherError.
+Proof. exact differentiation_never_out_of_fuel. Qed.
+Print Assumptions C01_differentiation_never_out_of_fuel.
+
+Theorem C01_differentiation_sets_not_larger :
+  forall (h : list Z -> Z) (g : mol) (tabs : cmtabs) (fuel : nat) (morgan : labels) (sa : list Z) (sct : list (Z * Z)) (sal : list Z)
+         (trace : list labels) (d : dres),
+  differentiation h g tabs fuel morgan sa sct sal trace = Ok d -> (mu (d_atoms d) (d_ct d) (d_al d) <= mu sa sct sal)%nat.
+Proof. exact differentiation_sets_le. Qed.
+Print Assumptions C01_differentiation_sets_not_larger.
+
+(* _chiral_morgan's model with ANY larger inner fuel is the same function: diff_fuel is enough at every call of __differentiation *)
+Theorem C01_chiral_morgan_inner_fuel_sufficient :
+  forall (h : list Z -> Z) (g : mol) (tabs : cmtabs) (ao : labels) (ord : cmorders) (extra : nat),
+  chiral_morgan h g tabs ao ord =
+  if negb (has_stereo_labels g) then Ok (ao, [])
+  else chiral_loop h g tabs (S (S (List.length (m_atoms g)))) (diff_fuel ord + extra) ao (o_atoms ord) (o_ct ord) (o_al ord) [].
+Proof. exact chiral_morgan_inner_fuel_sufficient. Qed.
+Print Assumptions C01_chiral_morgan_inner_fuel_sufficient.
+
+Theorem C01_differentiation_fuel_example :
+  (mu (o_atoms exc_ord) (o_ct exc_ord) (o_al exc_ord) < diff_fuel exc_ord)%nat /\
+  (exists d, differentiation hash_ztuple exc_g exc_tabs (diff_fuel exc_ord) exc_ao (o_atoms exc_ord) (o_ct exc_ord) (o_al exc_ord) [] = Ok d /\
+             d_trace d <> [] /\ d_atoms d = []) /\
+  differentiation hash_ztuple exc_g exc_tabs (diff_fuel exc_ord + 1000) exc_ao (o_atoms exc_ord) (o_ct exc_ord) (o_al exc_ord) [] =
+  differentiation hash_ztuple exc_g exc_tabs (diff_fuel exc_ord) exc_ao (o_atoms exc_ord) (o_ct exc_ord) (o_al exc_ord) [].
+Proof. exact differentiation_fuel_example. Qed.
+Print Assumptions C01_differentiation_fuel_example.
+
+(* ---- TIE BY TRANSLATION of the stereo mark of an atom token: Gen.AtomStereoMark is regenerated from the SOURCE of
+   MoleculeSmiles._format_atom on every run by tools/gen_atomstereo.py (the whole stereo block: the guard, the allene branch with both
+   `next(...)` choices of the first written substituent, the reversed mark of a first-written centre WITH AN IMPLICIT HYDROGEN, the general
+   tetrahedral mark).  It is Writer.stereo_mark - the function all C01 theorems about stereo marks are about - whenever the neighbour
+   table is not empty and lists the second terminal of an allene centre (inside _smiles `visited` lists every atom of the component);
+   unconditionally the two give equal results and fail on the same inputs. *)
+Theorem C01_stereo_mark_is_translated_source :
+  forall (g : mol) (o : opts) (tabs : stabs) (n : Z) (adj : adjacency) (a : atom),
+  adj <> [] -> (forall t1 t2, zget (t_allene_term tabs) n = Some (t1, t2) -> zget adj t2 <> None) ->
+  g_stereo_mark g o tabs n adj a = stereo_mark g o tabs n adj a.
+Proof. exact g_stereo_mark_is_model. Qed.
+Print Assumptions C01_stereo_mark_is_translated_source.
+
+Theorem C01_stereo_mark_translated_ok_equiv :
+  forall (g : mol) (o : opts) (tabs : stabs) (n : Z) (adj : adjacency) (a : atom),
+  ok_equiv (g_stereo_mark g o tabs n adj a) (stereo_mark g o tabs n adj a).
+Proof. exact g_stereo_mark_ok_equiv. Qed.
+Print Assumptions C01_stereo_mark_translated_ok_equiv.
+
+(* non-vacuity: a centre 2 with neighbours 1 3 4 (stored sign true) written FIRST: with an implicit hydrogen the mark is the reversed
+   one, with an explicit hydrogen atom 5 (no implicit hydrogen) it is not *)
+Theorem C01_stereo_mark_translated_example :
+  let tabs := mkStabs [(2, [1; 3; 4])] [] [] [] [] [] [] in
+  let tabs4 := mkStabs [(2, [1; 3; 4; 5])] [] [] [] [] [] [] in
+  let c := fun h : Z => mkAtom 6 None 0 false (Some h) (Some true) in
+  let x := mkAtom 9 None 0 false (Some 0) None in
+  let g := mkMol [(2, c 1); (1, x); (3, x); (4, x)] [] in
+  let g4 := mkMol [(2, c 0); (1, x); (3, x); (4, x); (5, mkAtom 1 None 0 false (Some 0) None)] [] in
+  g_stereo_mark g default_opts tabs 2 [(2, [1; 3; 4]); (1, [2]); (3, [2]); (4, [2])] (c 1) = Ok "@@"%string /\
+  g_stereo_mark g default_opts tabs 2 [(1, [2]); (2, [1; 3; 4]); (3, [2]); (4, [2])] (c 1) = Ok "@"%string /\
+  g_stereo_mark g4 default_opts tabs4 2 [(2, [1; 3; 4; 5]); (1, [2]); (3, [2]); (4, [2]); (5, [2])] (c 0) = Ok "@"%string.
+Proof. exact stereo_mark_translated_example. Qed.
+Print Assumptions C01_stereo_mark_translated_example.
